@@ -35,6 +35,11 @@ pub struct Req {
     pub mmap: [u64; 5],
     pub fd_kind: u8,
     pub result: FeOutcome,
+    /// 0: nothing special.  1: another front-end thread holds the handler's mutex (the library's Mutex<S> adapter)
+    /// when the request arrives and lets go a little later.  2: as 1, and with REPLY_ACK the thread inside the proxy
+    /// call receives a signal (handler without SA_RESTART) while it waits for the acknowledgement.
+    #[serde(default)]
+    pub disturb: u8,
 }
 
 #[derive(Serialize, Deserialize, Debug, Clone, Hash, PartialEq, Eq)]
@@ -167,13 +172,41 @@ pub fn run_hist(ctx: &mut Ctx, h: &Hist) -> Result<(), String> {
                     self.0
                 }
             }
-            let hcall = std::thread::spawn(move || match kind {
-                0 => p.shared_object_add(&u),
-                1 => p.shared_object_remove(&u),
-                2 => p.shared_object_lookup(&u, &R(rawfd)),
-                3 => p.shmem_map(&mm, &R(rawfd)),
-                _ => p.shmem_unmap(&mm),
+            // the application's own use of its handler object: the request has to wait for the lock, not be refused
+            let guard = if r.disturb % 3 != 0 { Some(rec.lock().unwrap()) } else { None };
+            let tid = Arc::new(std::sync::atomic::AtomicI32::new(0));
+            let tid2 = tid.clone();
+            let hcall = std::thread::spawn(move || {
+                tid2.store(unsafe { libc::gettid() }, Ordering::SeqCst);
+                match kind {
+                    0 => p.shared_object_add(&u),
+                    1 => p.shared_object_remove(&u),
+                    2 => p.shared_object_lookup(&u, &R(rawfd)),
+                    3 => p.shmem_map(&mm, &R(rawfd)),
+                    _ => p.shmem_unmap(&mm),
+                }
             });
+            if let Some(g) = guard {
+                // until the tee has passed the request on, and a moment longer so that the server thread reaches the lock
+                let t0 = Instant::now();
+                while !seen.lock().unwrap()[seen_before..].iter().any(|x| x.request) && t0.elapsed() < BOUND {
+                    std::thread::yield_now();
+                }
+                std::thread::sleep(Duration::from_millis(1));
+                if r.disturb % 3 == 2 && h.reply_ack {
+                    super::c10::install_noop_sigusr2();
+                    let t = tid.load(Ordering::SeqCst);
+                    let t0 = Instant::now();
+                    while !crate::sched::asleep(t, 3) && t0.elapsed() < Duration::from_secs(1) {}
+                    if t != 0 && !hcall.is_finished() {
+                        unsafe { libc::syscall(libc::SYS_tgkill, libc::getpid(), t, libc::SIGUSR2) };
+                        std::thread::sleep(Duration::from_millis(1));
+                        ctx.class("signal_while_waiting_for_ack");
+                    }
+                }
+                ctx.class("handler_mutex_held_when_request_arrives");
+                drop(g);
+            }
             let t0 = Instant::now();
             while !hcall.is_finished() {
                 if t0.elapsed() > BOUND {
@@ -316,7 +349,8 @@ pub fn req_strategy() -> impl Strategy<Value = Req> {
         1 => (-4095i32..0).prop_map(FeOutcome::Errno),
         1 => Just(FeOutcome::Other),
     ];
-    (0u8..5, uu, mm, 0u8..5, res).prop_map(|(kind, uuid, mmap, fd_kind, result)| Req { kind, uuid, mmap, fd_kind, result })
+    let disturb = prop_oneof![21 => Just(0u8), 2 => Just(1u8), 1 => Just(2u8)];
+    (0u8..5, uu, mm, 0u8..5, res, disturb).prop_map(|(kind, uuid, mmap, fd_kind, result, disturb)| Req { kind, uuid, mmap, fd_kind, result, disturb })
 }
 
 pub fn run(ctx: &mut Ctx) {
@@ -324,7 +358,8 @@ pub fn run(ctx: &mut Ctx) {
                 directions) to the real FrontendReqHandler served in a thread that keeps serving after handler errors; UUIDs random / one bit away \
                 from nil / one bit away from all-ones, mapping descriptors from the 64-bit lattice with valid flag/len combinations, five \
                 descriptor kinds, handler results {0, non-zero values, errno 1..4095, negative raw codes, error without errno}, REPLY_ACK on or off \
-                on both ends. Non-trivial = a history mixing failing and succeeding requests, or containing a request with a descriptor."
+                on both ends; for some requests another thread holds the handler's mutex when the request arrives, and the thread inside the proxy call \
+                is sent a signal while it waits for the acknowledgement. Non-trivial = a history mixing failing and succeeding requests, or containing a request with a descriptor."
         .into();
     ctx.assumptions = vec![
         "protocol-invalid arguments (nil / all-ones UUID, zero or wrapping mapping length, undefined flags) are outside the claim and not generated".into(),
